@@ -174,6 +174,16 @@ def step_prove(ctx, thorough):
         return True
     # obligations: theorems of the property module and of the lemma/verdict modules it imports
     mods = lean_sources_of(mod)
+    # companion modules Props/<pid><Suffix>.lean (e.g. C07Rfc) belong to the same property
+    import glob as _glob
+    for extra in sorted(_glob.glob(os.path.join(LEAN, "HbsLms", "Props", ctx.pid + "?*.lean"))):
+        em = "HbsLms.Props." + os.path.basename(extra)[:-5]
+        rc_e, out_e, _ = run(["lake", "build", em], cwd=LEAN)
+        if rc_e != 0:
+            ctx.proof_failures.append({"module": em, "errors": [l for l in out_e.splitlines() if "error" in l][:8]})
+        for m2 in lean_sources_of(em):
+            if m2 not in mods:
+                mods.append(m2)
     thms = []
     for m in mods:
         src = open(os.path.join(LEAN, *m.split(".")) + ".lean").read()
